@@ -545,8 +545,23 @@ func allInjections() []injection {
 				b.Subject, b.LocalSubject = "other.*", "$1.q"
 				b.Subject, b.LocalSubject = "other.*", "lo.$1"
 			}
-			pos := g.rng.Intn(len(ac.Imports) + 1)
-			ac.Imports = append(ac.Imports[:pos], append(jwt.Imports{b}, ac.Imports[pos:]...)...)
+			switch g.rng.Intn(3) {
+			case 0:
+				// the two far apart, an unrelated literal service import between them and next to the second: every
+				// pair of the list is compared, not only neighbours or the most recent entry
+				sp := &jwt.Import{Name: "spacer", Subject: "spacer.literal.subject", Account: g.acctKey(), Type: jwt.Service}
+				if g.rng.Intn(2) == 0 {
+					ac.Imports = append(ac.Imports, sp, b)
+				} else {
+					ac.Imports = append(jwt.Imports{b, sp}, ac.Imports...)
+				}
+				if ac.Limits.Imports != -1 {
+					ac.Limits.Imports++
+				}
+			default:
+				pos := g.rng.Intn(len(ac.Imports) + 1)
+				ac.Imports = append(ac.Imports[:pos], append(jwt.Imports{b}, ac.Imports[pos:]...)...)
+			}
 			if ac.Limits.Imports != -1 {
 				ac.Limits.Imports++
 			}
